@@ -61,7 +61,15 @@ func runSolver(ctx context.Context, sp solverSpec, file string, secs int, tag st
 	defer cancel()
 	cmd := exec.CommandContext(cctx, argv[0], argv[1:]...)
 	out, _ := cmd.CombinedOutput()
-	first := strings.TrimSpace(strings.SplitN(strings.TrimSpace(string(out)), "\n", 2)[0])
+	first := ""
+	for _, l := range strings.Split(string(out), "\n") {
+		l = strings.TrimSpace(l)
+		if l == "" || strings.HasPrefix(l, "WARNING") || strings.HasPrefix(l, "(warning") {
+			continue
+		}
+		first = l
+		break
+	}
 	r := SolveResult{Backend: sp.name + tag, Secs: time.Since(t0).Seconds(), Output: trunc(string(out), 4000), File: file}
 	switch {
 	case first == "unsat":
